@@ -131,6 +131,43 @@ Theorem balance_row_total_is_subtree_sum : forall ord o ps a b c,
 Proof. exact brow_total_den. Qed.
 Print Assumptions balance_row_total_is_subtree_sum.
 
+(* ---- reg --depth n (collapse_posts): the balance of an account at depth <= n is the sum of
+        the collapsed per-transaction rows of it and its sub-accounts; no row is deeper than n ---- *)
+Theorem bal_eq_reg_depth : forall ord ord' o ps n a v gs c,
+  (Z.of_nat (length a) <= n)%Z ->
+  total_of ord o ps a = Ok v ->
+  collapsed ord' n o ps = Ok gs ->
+  den v c == sumq (fun g => mapq c (is_prefix a) g) gs.
+Proof. exact bal_eq_reg_depth_gen. Qed.
+Print Assumptions bal_eq_reg_depth.
+
+Theorem collapsed_rows_depth_bounded : forall ord n o, (0 <= n)%Z -> forall sp m m',
+  collapse_xact ord n o sp m = Ok m' ->
+  (forall k, In k (map fst m) -> (Z.of_nat (length k) <= n)%Z) ->
+  forall k, In k (map fst m') -> (Z.of_nat (length k) <= n)%Z.
+Proof. exact collapse_xact_depth. Qed.
+Print Assumptions collapsed_rows_depth_bounded.
+
+(* ---- the lazy account_t::amount() (last_post iterator + CONSIDERED flags): a call returns the
+        old total plus every visited posting not yet considered, provided none lies before
+        last_post, and leaves nothing unconsidered - any interleaving of appending/visiting
+        postings in file order and calling amount() yields the plain sum; in particular the two
+        calls a balance row makes return `own` ---- *)
+Theorem account_amount_incremental_eq : forall ord sd posts sd' posts' c,
+  (forall x, In x (firstn (match sd_last sd with Some i => i | None => O end) posts) ->
+             lp_fresh x = false) ->
+  amount_call ord sd posts = Ok (sd', posts') ->
+  den (sd_total sd') c == den (sd_total sd) c + sumq (lp_q c) posts /\
+  (forall x, In x posts' -> lp_fresh x = false) /\
+  length posts' = length posts.
+Proof. exact amount_call_den. Qed.
+Print Assumptions account_amount_incremental_eq.
+
+Theorem account_amount_called_twice_is_own : forall ord o ps a,
+  own_lazy_twice ord o ps a = own_of ord o ps a.
+Proof. exact own_lazy_eq. Qed.
+Print Assumptions account_amount_called_twice_is_own.
+
 (* ---- lots: whatever lot details are kept, the displayed value has, for every base commodity s,
         the sum of all annotated variants of s in the exact value (showing lots refines a total
         but never changes its per-commodity sum) ---- *)
@@ -149,7 +186,7 @@ Print Assumptions strip_keeps_base_commodity.
 Local Close Scope Q_scope.
 Local Open Scope Z_scope.
 Example ex_amt (n : Z) (c : str) : amount := mkAmt (inject_Z n) 0 false (Some c).
-Example ex_opts : opts := mkOpts false SAny QNone false false false false false None false.
+Example ex_opts : opts := mkOpts false SAny [] false false false false false None false.
 Example ex_posts : list posting :=
   [ mkPost 0 [80] Uncleared Uncleared [[65]; [66]] false (ex_amt 10 [36]) None;
     mkPost 0 [80] Uncleared Cleared   [[65]]       false (ex_amt 5 [88; 126; 49; 126; 126]) None;
@@ -165,6 +202,6 @@ Example ex_display_strips_lot :
 Proof. vm_compute. reflexivity. Qed.
 
 Example ex_cleared_only :
-  total_of true (mkOpts false SCleared QNone false false false false false None false) ex_posts [] =
+  total_of true (mkOpts false SCleared [] false false false false false None false) ex_posts [] =
   Ok (VAmt (ex_amt 5 [88; 126; 49; 126; 126])).
 Proof. vm_compute. reflexivity. Qed.
